@@ -483,17 +483,17 @@ def gen_cases(chk):
                 add(m, "captured-edit")
         add(p + b"\0", "captured-extend")
     # structured responses
-    nstruct = 6000 if thorough else 700
+    nstruct = 4200 if thorough else 700
     keep = []
     for k in range(nstruct):
         fl = ("mixed", "mixed", "mixed", "wild", "long", "short-last")[k % 6]
         msg, marks = structured(rng, fl)
         add(msg, "structured-" + fl)
-        if k % (6 if thorough else 12) < 2:
+        if k % 12 < (2 if thorough else 1):
             keep.append((msg, marks))
     # corruptions of structured responses
     for idx, (msg, marks) in enumerate(keep):
-        mutate_marks(msg, marks, "corrupt", 0 if (thorough or idx < 12) else 2)
+        mutate_marks(msg, marks, "corrupt", 0 if (thorough or idx < 12) else 3)
         if idx < (60 if thorough else 10):
             for cut in range(len(msg)):
                 add(msg[:cut], "corrupt-truncate")
